@@ -1,17 +1,17 @@
-\* MC_MxIOSpec_quick.cfg2
+\* MC_MxIOSpec_thorough1.cfg2
 CONSTANTS
-  Models = {"M1", "M2"}
+  Models = {"M1"}
   BaseInit = {"M1"}
   Names = {"x", "y"}
   CsvLocs = {"p.csv", "q.csv"}
-  ModLocs = {}
+  ModLocs = {"mo.py"}
   PVals = {1, 2}
-  MVals = {}
-  WithDelSpace = FALSE
+  MVals = {3, 4}
+  WithDelSpace = TRUE
   ExploreTainted = FALSE
-  MaxOps = 3
+  MaxOps = 99
   Dump = TRUE
-VIEW View
+VIEW ViewU
 INIT Init
 NEXT Next
 CONSTRAINT Bound
